@@ -18,6 +18,9 @@ CLAIMS = {
  "C07": dict(design="5/C07", tech=E1 + " over finite class-representative alphabets",
    text="text_repr -> ast.literal_eval round trip for every str (12 character classes) / bytes (8 classes) of length <=3 (quick) / <=4 (thorough) x 3 multiline modes; every stock matcher in testtools.matchers.__all__ (read at run time) x constructor variants x per-type matchee alphabets x verbose x annotation: str(), describe(), get_details(), str(MismatchError), assertThat/assert_that raise iff mismatch, expectThat never raises and fails the test iff mismatch; detail-name collisions. All selectors exhausted by the solver.",
    note="repr and codecs are CPython's (finite alphabets only); filesystem leaves use a prepared scratch directory; FileContains on directories excluded."),
+ "C19": dict(design="5/C19", tech=E1 + "; symbolic id-membership bits",
+   text="Every suite tree up to a node/depth bound (pre-order opcode lists; 4 leaf kinds incl. duplicate ids, 4 suite kinds, empty suites) is built and iterate_tests / sorted_tests / filter_by_ids (ids as a container with symbolic membership bits) / TestProgram --list and --load-list (in-process) are compared with reference flatten, sort and filter written from the statement; exhaustive within the bound.",
+   note="TestProgram is driven in-process with a stub loader; a real temporary file carries the id list."),
  "C16": dict(design="5/C16", tech=E1 + "; symbolic byte payloads, chunk sizes and offsets",
    text="Chunk reader on symbolic data bytes/chunk sizes/offsets (all values within length bound), real-file reader, chunk-independent decoding for every pair of cut positions over a class-representative alphabet, Content equality on symbolic bytes, ContentType MIME round trip over a token/value alphabet, snapshot semantics; exhaustive within the bounds.",
    note="Stream modelled by ModelStream (io.BytesIO contract); codecs are CPython's (text is a finite alphabet); open known finding F9 (charset containing a comma) is excluded by class."),
